@@ -62,6 +62,7 @@ type dealerPart struct {
 	greyReq   map[ck]bool
 	greyInv   map[ck]bool
 	hasMeta   bool // a meta part handles wamp.* calls
+	handledProcs map[string]bool // individual wamp.* procedures judged by another part
 	// hooks for the meta-event model (C18)
 	onCreate     func(st *StepRec, s int, r *mReg)
 	onRegister   func(st *StepRec, s int, r *mReg)
@@ -77,7 +78,7 @@ type dealerPart struct {
 
 func newDealerPart(w *World) *dealerPart {
 	return &dealerPart{regs: map[string]*mReg{}, byID: map[string]*mReg{}, calls: map[ck]*mCall{}, invs: map[ck]*mCall{},
-		abandoned: map[ck]bool{}, usedInv: map[int]map[wamp.ID]bool{}, metaReq: map[ck]bool{}, greyReq: map[ck]bool{}, greyInv: map[ck]bool{}, finalDue: map[ck]int{}}
+		handledProcs: map[string]bool{}, abandoned: map[ck]bool{}, usedInv: map[int]map[wamp.ID]bool{}, metaReq: map[ck]bool{}, greyReq: map[ck]bool{}, greyInv: map[ck]bool{}, finalDue: map[ck]int{}}
 }
 
 func (d *dealerPart) Ignore(w *World, s int, m wamp.Message) bool {
@@ -566,7 +567,9 @@ func (d *dealerPart) onCallMsg(w *World, st *StepRec, s int, realm string, rc *R
 	req := m.Request
 	proc := string(m.Procedure)
 	if routerProc(rc, proc) {
-		d.metaReq[ck{s, req}] = true
+		if !d.handledProcs[proc] {
+			d.metaReq[ck{s, req}] = true
+		}
 		return nil
 	}
 	if _, ok := m.Options["ppt_scheme"]; ok {
